@@ -204,6 +204,16 @@ var (
 	x86_64RawSyscallRegex = regexp.MustCompile(`MOV[A-Z]? \$(.+), (?:AX|BP)`)
 )
 
+// instruction returns the instruction part of a disassembly line that was
+// split into fields (location, address, opcode bytes, instruction...). Lines
+// with fewer fields have no instruction part.
+func instruction(fields []string) string {
+	if len(fields) < 4 {
+		return ""
+	}
+	return strings.Join(fields[3:], " ")
+}
+
 func parseX86_64(p *parser, line, caller string, instructions []string) (*Syscall, error) {
 	var m *regexp.Regexp
 	if p.isRawSyscall(line) && !isSyscallFunction(caller) {
@@ -216,7 +226,7 @@ func parseX86_64(p *parser, line, caller string, instructions []string) (*Syscal
 				fields := strings.Fields(line)
 				return &Syscall{
 					Location: fields[0],
-					Function: strings.Join(fields[3:], " "),
+					Function: instruction(fields),
 					Num:      0,
 					Assembly: "XORL AX, AX",
 				}, nil
@@ -233,7 +243,7 @@ func parseX86_64(p *parser, line, caller string, instructions []string) (*Syscal
 	fields := strings.Fields(line)
 	s := &Syscall{
 		Location: fields[0],
-		Function: strings.Join(fields[3:], " "),
+		Function: instruction(fields),
 	}
 	if err := findSyscallNum(instructions, s, m); err != nil {
 		return nil, fmt.Errorf("failed to extract syscall from '%v': %v",
